@@ -10,11 +10,14 @@ Decided:
          (``tb_str.splitlines()[-1]``) likewise; both page routes ('/' and the catch-all '/<..*>') use the same
          endpoint and template; the resource names given to Application are exactly the endpoint's parameters (so
          the bind-time check of C01 holds for the failsafe itself); the template name rendered is the one
-         registered; the static asset application is non-breaking and the catch-all is the last route; nothing
-         removes entries from the caller's monitored-file list;
+         registered; the static asset application is non-breaking (its closures and helpers included) and the
+         catch-all is the last route; the page routes answer every method and the Application is configured with
+         nothing else (slash mode, middlewares, error handler at their defaults); create_app touches its inputs only
+         where that cannot stop the construction; nothing removes entries from the caller's monitored-file list; the
+         text / file list shown are the ones create_app was given;
   R20.c  every reference of the registered template is HTML-escaped under ashes' filter semantics (no |s, no esc
-         pragma), and nothing in clastic switches autoescaping off; the endpoint supplies what the template reads
-         and the text / file list shown are the ones create_app was given;
+         pragma, stock filters on the render factory), and nothing in clastic switches autoescaping off; the endpoint
+         supplies what the template reads; the error text and the full file list are rendered unconditionally;
   R20.d  the parsed branch is reachable: from_string has a normal return path that does not depend on an
          unbound name (follows from R20.a), constructs cls(<type>, <message>, ...) from the two sides of the
          ``partition(':')`` of the exception line, and to_dict exports the keys the template's {#parsed_err} block
@@ -27,8 +30,10 @@ Decided:
 Declined: "answers 200 for every text" over non-text inputs; which traceback texts the parser recognises.
 
 The constructs are located by role: the Application(...) call create_app returns, its routes / resources /
-render_factory arguments followed through single-assignment locals, module-level constants and straight-line list
-building; the endpoint is whatever function the page routes name; the template is whatever source is registered.
+render_factory arguments followed through single-assignment locals, module-level constants, expression functions,
+builder functions (public call-only helpers are dissolved into their callers like the loader does for private ones),
+straight-line list / dict building and unpacking; the endpoint is whatever function the page routes name; the template
+is whatever source is registered; lambdas and nested functions are judged where they run.
 """
 import ast
 
@@ -306,9 +311,13 @@ def _seq_elements(fi, expr, what, depth=0):
     if depth > 5:
         raise AnalysisError('%s: construction too deep to follow' % what)
     if isinstance(expr, (ast.List, ast.Tuple)):
-        if any(isinstance(e, ast.Starred) for e in expr.elts):
-            raise AnalysisError('%s: starred element in %s' % (what, short(expr)))
-        return list(expr.elts)
+        out = []
+        for e in expr.elts:
+            if isinstance(e, ast.Starred):
+                out.extend(_seq_elements(fi, e.value, what, depth + 1))      # [*pages, assets]
+            else:
+                out.append(e)
+        return out
     if isinstance(expr, ast.BinOp) and isinstance(expr.op, ast.Add):
         return _seq_elements(fi, expr.left, what, depth + 1) + _seq_elements(fi, expr.right, what, depth + 1)
     if isinstance(expr, ast.Call) and call_name(expr) in ('list', 'tuple') and len(expr.args) == 1 and not expr.keywords:
@@ -327,20 +336,53 @@ def _seq_elements(fi, expr, what, depth=0):
             rets = returns_of(g)
             if len(rets) == 1 and rets[0].value is not None and _straight_line(g, rets[0]) and not g.params():
                 return [_closed(g, e) for e in _seq_elements(g, rets[0].value, what, depth + 1)]
+    if isinstance(expr, ast.Subscript) and isinstance(expr.slice, ast.Slice) and expr.slice.step is None:
+        # pages[:1] / pages[1:] of a sequence that can be followed
+        lo = _const_index(expr.slice.lower) if expr.slice.lower is not None else None
+        hi = _const_index(expr.slice.upper) if expr.slice.upper is not None else None
+        if (expr.slice.lower is not None and lo is None) or (expr.slice.upper is not None and hi is None):
+            raise AnalysisError('%s: slice %s cannot be followed' % (what, short(expr)))
+        return _seq_elements(fi, expr.value, what, depth + 1)[lo:hi]
     if isinstance(expr, (ast.ListComp, ast.GeneratorExp)) and len(expr.generators) == 1 and not expr.generators[0].ifs and \
-            isinstance(expr.generators[0].target, ast.Name) and not expr.generators[0].is_async:
-        # [(p, endpoint, name) for p in ('/', '/<x*>')]: one element per constant of the iterated literal
+            not expr.generators[0].is_async:
+        # [(p, endpoint, name) for p in ('/', '/<x*>')] / [(p, *t) for p, t in zip(PATTERNS, targets)]: one element per
+        # element of the iterated sequence(s), the loop variables replaced by those elements
         import copy
         g = expr.generators[0]
-        consts = fi.mod.repo.try_fold(_deref(fi, g.iter), fi.mod, None)
-        if not isinstance(consts, (list, tuple)) or not all(isinstance(c, (str, int, bytes)) for c in consts):
-            raise AnalysisError('%s: comprehension over %s cannot be expanded' % (what, short(g.iter)))
+        it = _deref(fi, g.iter)
+        rows = None
+        consts = fi.mod.repo.try_fold(it, fi.mod, None)
+        if isinstance(consts, (list, tuple)) and all(isinstance(c, (str, int, bytes)) for c in consts):
+            rows = [ast.copy_location(ast.Constant(value=c), g.iter) for c in consts]
+        elif isinstance(it, ast.Call) and call_name(it) == 'zip' and it.args and not it.keywords:
+            cols = [_seq_elements(fi, a, what, depth + 1) for a in it.args]
+            rows = [ast.copy_location(ast.Tuple(elts=list(r), ctx=ast.Load()), g.iter) for r in zip(*cols)]
+        elif isinstance(it, ast.Call) and call_name(it) == 'enumerate' and len(it.args) == 1 and not it.keywords:
+            col = _seq_elements(fi, it.args[0], what, depth + 1)
+            rows = [ast.copy_location(ast.Tuple(elts=[ast.Constant(value=i), e], ctx=ast.Load()), g.iter) for i, e in enumerate(col)]
+        else:
+            rows = _seq_elements(fi, it, what, depth + 1)
         out = []
-        for c in consts:
+        for row in rows:
+            binding = {}
+
+            def bind(t, v):
+                if isinstance(t, ast.Name):
+                    binding[t.id] = v
+                elif isinstance(t, (ast.Tuple, ast.List)) and not any(isinstance(x, ast.Starred) for x in t.elts):
+                    vs = _seq_elements(fi, v, what, depth + 1) if not isinstance(v, ast.Constant) else None
+                    if vs is None or len(vs) != len(t.elts):
+                        raise AnalysisError('%s: comprehension target %s cannot be bound' % (what, short(t)))
+                    for t_, v_ in zip(t.elts, vs):
+                        bind(t_, v_)
+                else:
+                    raise AnalysisError('%s: comprehension target %s cannot be bound' % (what, short(t)))
+            bind(g.target, row)
+
             class _Sub(ast.NodeTransformer):
                 def visit_Name(self_, node):
-                    if node.id == g.target.id and isinstance(node.ctx, ast.Load):
-                        return ast.copy_location(ast.Constant(value=c), node)
+                    if node.id in binding and isinstance(node.ctx, ast.Load):
+                        return ast.copy_location(copy.deepcopy(binding[node.id]), node)
                     return node
             out.append(_Sub().visit(copy.deepcopy(expr.elt)))
         return out
@@ -349,6 +391,15 @@ def _seq_elements(fi, expr, what, depth=0):
         if name in _all_params(fi):
             raise AnalysisError('%s: %s is a parameter' % (what, name))
         binds = assigned_value(fi.node, name)
+        if not binds:
+            # a module-level constant sequence
+            consts = fi.mod.repo.try_fold(expr, fi.mod, None)
+            if isinstance(consts, (list, tuple)) and all(isinstance(c, (str, int, bytes, type(None))) for c in consts):
+                return [ast.copy_location(ast.Constant(value=c), expr) for c in consts]
+            vals = fi.mod.assigns.get(name) or []
+            if len(vals) == 1 and isinstance(vals[0], (ast.List, ast.Tuple)) and not any(isinstance(e, ast.Starred) for e in vals[0].elts):
+                return list(vals[0].elts)       # module-level display of names (only module-level names in it)
+            raise AnalysisError('%s: %s is not a local and not a constant sequence' % (what, name))
         plain = [b for b in binds if isinstance(b[0], (ast.Assign, ast.AnnAssign)) and b[2] is None]
         augs = [b for b in binds if isinstance(b[0], ast.AugAssign)]
         if len(plain) != 1 or len(plain) + len(augs) != len(binds):
@@ -414,16 +465,37 @@ def _dict_items(fi, expr, what, depth=0):
             if isinstance(src, ast.Name) and not (isinstance(expr, ast.Name) and src.id == expr.id):
                 items.update(_dict_items(fi, src, what, depth + 1))       # {**base, ...} / dict(base, ...)
                 continue
-            if isinstance(src, (ast.List, ast.Tuple)) and all(
-                    isinstance(p_, ast.Tuple) and len(p_.elts) == 2 and isinstance(p_.elts[0], ast.Constant) for p_ in src.elts):
-                for p_ in src.elts:                                         # dict([('k', v), ...])
-                    items[p_.elts[0].value] = p_.elts[1]
-                continue
+            if isinstance(src, (ast.List, ast.Tuple)):
+                pairs = []
+                for p_ in src.elts:                                         # dict([('k', v), item, ...])
+                    if isinstance(p_, ast.Tuple) and len(p_.elts) == 2 and isinstance(p_.elts[0], ast.Constant):
+                        pairs.append((p_.elts[0].value, p_.elts[1]))
+                        continue
+                    binds = assigned_value(fi.node, p_.id) if isinstance(p_, ast.Name) and p_.id not in _all_params(fi) else []
+                    keys = set(v_.elts[0].value if isinstance(v_, ast.Tuple) and len(v_.elts) == 2 and isinstance(v_.elts[0], ast.Constant)
+                               and idx_ is None else None for st_, v_, idx_ in binds)
+                    if len(keys) == 1 and None not in keys:
+                        # item = ('k', a) in the try, ('k', b) in the handler: the key is known, the value is "item[1]"
+                        val = binds[0][1].elts[1] if len(binds) == 1 else \
+                            ast.copy_location(ast.Subscript(value=p_, slice=ast.Constant(value=1), ctx=ast.Load()), p_)
+                        pairs.append((keys.pop(), val))
+                        continue
+                    pairs = None
+                    break
+                if pairs is not None:
+                    items.update(pairs)
+                    continue
+            if isinstance(src, ast.Call) and call_name(src) == 'zip' and len(src.args) == 2 and not src.keywords:
+                # dict(zip(NAMES, values)): the names fold to constants, the values are a followable sequence
+                names = _fold(fi.mod.repo, fi, src.args[0])
+                vals = _seq_elements(fi, src.args[1], what)
+                if isinstance(names, (list, tuple)) and len(names) == len(vals) and all(isinstance(n_, str) for n_ in names):
+                    items.update(zip(names, vals))
+                    continue
+                raise AnalysisError('%s: %s cannot be followed' % (what, short(src)))
             if isinstance(src, (ast.Dict, ast.Call)) and src is not expr:
                 items.update(_dict_items(fi, src, what, depth + 1))
                 continue
-            if isinstance(src, ast.Call) and call_name(src) == 'zip' and len(src.args) == 2 and not src.keywords:
-                pass
             raise AnalysisError('%s: part %s of the dict is not a literal' % (what, l.text))
         if l.kind != 'literal' or l.values is None:
             raise AnalysisError('%s: part %s of the dict is not a literal' % (what, l.text))
@@ -515,6 +587,79 @@ def _catch_all(fi, node):
                     return tr, h, 'the finally clause raises'
                 return tr, h, None
     return None, None, None
+
+
+def _deferred_functions(fi):
+    """Lambdas and nested function definitions written in the body of ``fi`` (their code runs where they are called)."""
+    out = []
+    for n in walk_body(fi.node):
+        if isinstance(n, ast.Lambda) or (isinstance(n, (ast.FunctionDef, ast.AsyncFunctionDef)) and n is not fi.node):
+            out.append(n)
+    return out
+
+
+def _runner_verdict(repo, fi, fn_node):
+    """Where does a lambda / nested function of ``fi`` run?  (True, where) when every place that calls it is inside a
+    sound catch-all (in ``fi`` itself, or in the function of the module it is handed to: ``_attempt(lambda: ..., {})``);
+    (False, why) when a call that can be seen is not contained; (None, why) when it cannot be told."""
+    parents = fi.mod.parents
+    if isinstance(fn_node, (ast.Name, ast.Attribute)):
+        uses = [fn_node]          # a reference to a function defined elsewhere, written right here
+    elif isinstance(fn_node, ast.Lambda):
+        par = parents.get(fn_node)
+        if isinstance(par, ast.Assign) and len(par.targets) == 1 and isinstance(par.targets[0], ast.Name) and par.value is fn_node:
+            name = par.targets[0].id
+            if len(assigned_value(fi.node, name)) != 1:
+                return None, 'the name %s is bound more than once' % name
+            uses = [n for n in walk_body(fi.node) if isinstance(n, ast.Name) and n.id == name and isinstance(n.ctx, ast.Load)]
+        else:
+            uses = [fn_node]
+    else:
+        name = fn_node.name
+        if assigned_value(fi.node, name):
+            return None, 'the name %s is re-bound' % name
+        uses = [n for n in walk_body(fi.node) if isinstance(n, ast.Name) and n.id == name and isinstance(n.ctx, ast.Load)]
+    if not uses:
+        return None, 'never used'
+    where = []
+    for u in uses:
+        par = parents.get(u)
+        call, kwname = None, None
+        if isinstance(par, ast.keyword):
+            kwname, call = par.arg, parents.get(par)
+        elif isinstance(par, ast.Call):
+            call = par
+        if call is None:
+            return None, 'used as a value (%s)' % short(par, 40)
+        if call.func is u:
+            tr, h, problem = _catch_all(fi, call)
+            if h is None or problem:
+                return False, 'it is called %s' % ('outside any catch-all handler' if h is None else 'where ' + problem)
+            where.append(fi.qualname)
+            continue
+        g = _module_callee(repo, fi, call)
+        if g is None:
+            return None, 'handed to %s' % short(call.func, 30)
+        gps = g.params()
+        if kwname is not None:
+            pname = kwname if kwname in gps else None
+        else:
+            idx = [i for i, a in enumerate(call.args) if a is u]
+            pname = gps[idx[0]] if idx and idx[0] < len(gps) and not any(isinstance(a, ast.Starred) for a in call.args[:idx[0] + 1]) else None
+        if pname is None or assigned_value(g.node, pname):
+            return None, 'handed to %s in a way that cannot be followed' % g.qualname
+        loads = [n for n in walk_body(g.node) if isinstance(n, ast.Name) and n.id == pname and isinstance(n.ctx, ast.Load)]
+        if not loads:
+            return None, '%s never calls it' % g.qualname
+        for l in loads:
+            gp = g.mod.parents.get(l)
+            if not (isinstance(gp, ast.Call) and gp.func is l):
+                return None, '%s passes it on' % g.qualname
+            tr, h, problem = _catch_all(g, gp)
+            if h is None or problem:
+                return False, '%s calls it %s' % (g.qualname, 'outside any catch-all handler' if h is None else 'where ' + problem)
+        where.append(g.qualname)
+    return True, ', '.join(sorted(set(where)))
 
 
 def _is_parser_call(fi, c):
@@ -795,8 +940,9 @@ class _Failsafe(object):
                 if not isinstance(idx, int) or not -len(seq) <= idx < len(seq):
                     raise AnalysisError('create_app: route entry %s cannot be read' % short(e0))
                 e0 = _deref(ca, seq[idx])
-            if isinstance(e0, ast.BinOp) and isinstance(e0.op, ast.Add):
-                parts = _seq_elements(ca, e0, 'create_app route entry')      # ('/',) + page
+            if (isinstance(e0, ast.BinOp) and isinstance(e0.op, ast.Add)) or \
+                    (isinstance(e0, ast.Tuple) and any(isinstance(x, ast.Starred) for x in e0.elts)):
+                parts = _seq_elements(ca, e0, 'create_app route entry')      # ('/',) + page   /   (pattern, *page)
             elif isinstance(e0, ast.Tuple) and not any(isinstance(x, ast.Starred) for x in e0.elts):
                 parts = list(e0.elts)
             elif isinstance(e0, ast.Call) and call_tail(e0) == 'SubApplication' and len(e0.args) == 2 and not e0.keywords:
@@ -1020,8 +1166,40 @@ def _parser_contained(rep, fs):
         rep.ok('R20.b', fkey(ca, c), 'this parser method cannot raise (no call, subscript or raise in its body)', flaw, c)
     contained_elsewhere = [c for c in walk_body(ca.node) if isinstance(c, ast.Call) and _module_callee(repo, ca, c) is not None
                            and _module_callee(repo, ca, c).qualname in calls_parser]
-    if not sites and not contained_elsewhere and not harmless:
+    deferred = []
+    for fn in _deferred_functions(ca):
+        inner = [c for c in ast.walk(fn) if isinstance(c, ast.Call) and
+                 (_is_parser_call(ca, c) or (_module_callee(repo, ca, c) is not None and _module_callee(repo, ca, c).qualname in leaky))
+                 and not _harmless_parser_method(repo, ca, c)]
+        if inner:
+            deferred.append((fn, inner))
+    # references handed on: _attempt(_parse, text, default={}) / _attempt(_ParsedTB.from_string, text)
+    for n in walk_body(ca.node):
+        par = flaw.parents.get(n)
+        if isinstance(par, ast.Call) and par.func is n:
+            continue
+        ref = None
+        if isinstance(n, ast.Name) and isinstance(n.ctx, ast.Load) and n.id not in _all_params(ca) and not assigned_value(ca.node, n.id):
+            try:
+                kind, m, obj = repo.resolve(flaw, n.id)
+            except Exception:
+                kind, m, obj = 'unknown', None, None
+            if kind == 'func' and m is flaw and obj.qualname in leaky:
+                ref = n
+        elif isinstance(n, ast.Attribute) and isinstance(n.ctx, ast.Load) and n.attr == 'from_string' and norm(n.value) == PARSER_CLASS:
+            ref = n
+        if ref is not None:
+            deferred.append((ref, [ref]))
+    if not sites and not contained_elsewhere and not harmless and not deferred:
         raise AnalysisError('create_app no longer calls the traceback parser')
+    for fn, inner in deferred:
+        verdict, detail = _runner_verdict(repo, ca, fn)
+        if verdict is None:
+            raise AnalysisError('create_app: the parser is called from %s, and where that runs cannot be told (%s)' % (short(fn, 50), detail))
+        for c in inner:
+            rep.check('R20.b', fkey(ca, c), verdict,
+                      'parser call runs under the catch-all of %s' % detail if verdict else
+                      'parser call %s can raise out of create_app: %s' % (short(c), detail), flaw, c)
     for c in sites:
         tr, h, problem = _catch_all(ca, c)
         ok = h is not None and not problem
@@ -1084,6 +1262,18 @@ def _parser_contained(rep, fs):
                   '%s is under a catch-all handler that completes with a harmless value' % why if ok else
                   '%s can raise (empty / non-text input) %s' % (short(n), 'outside any catch-all handler' if h is None else '-- ' + problem),
                   flaw, n)
+    for fn in _deferred_functions(epf):
+        inner = [n for n in ast.walk(fn) if (isinstance(n, ast.Subscript) and isinstance(n.ctx, ast.Load)) or
+                 (isinstance(n, ast.Call) and not _safe_builtin_call(n, epf))]
+        if not inner:
+            continue
+        verdict, detail = _runner_verdict(repo, epf, fn)
+        if verdict is None:
+            raise AnalysisError('%s: where %s runs cannot be told (%s)' % (epf.qualname, short(fn, 50), detail))
+        n_risky += 1
+        rep.check('R20.b', fkey(epf, fn), verdict,
+                  '%s runs under the catch-all of %s' % (short(fn, 50), detail) if verdict else
+                  '%s can raise (empty / non-text input): %s' % (short(fn, 50), detail), flaw, fn)
     ctx_last = [v for _, items in fs.context for k, v in items.items() if k == 'last_line']
     if not n_risky and ctx_last and not all(_param_behind(epf, v) for v in ctx_last):
         raise AnalysisError('%s: the computation of last_line was not found' % epf.qualname)
@@ -1098,6 +1288,8 @@ _CONTAINER_METHODS = ('update', 'setdefault', 'append', 'extend', 'insert', 'add
 
 def _fresh_is_container(fi, name):
     """Every binding of the local is a dict / list / set display or constructor call (so the container methods are the builtin ones)."""
+    if fi.node.args.kwarg is not None and fi.node.args.kwarg.arg == name and not assigned_value(fi.node, name):
+        return True       # **kwargs: a dict made for this call
     binds = assigned_value(fi.node, name)
     return bool(binds) and all(
         idx is None and (isinstance(v, (ast.Dict, ast.List, ast.Set, ast.DictComp, ast.ListComp, ast.SetComp)) or
@@ -1105,12 +1297,24 @@ def _fresh_is_container(fi, name):
         for st, v, idx in binds)
 
 
-def _safe_builtin_call(n):
+def _safe_builtin_call(n, fi=None):
+    """A call that cannot raise whatever the request data are: container constructors over displays / constant
+    sequences (``dict(a=x)``, ``dict(zip(NAMES, (a, b)))``, ``list()``), type predicates."""
     if not (isinstance(n.func, ast.Name) and not any(k.arg is None for k in n.keywords)):
         return False
-    if n.func.id in _SAFE_CONSTRUCTORS:
+
+    def inert(a, depth=0):
+        if isinstance(a, (ast.Dict, ast.List, ast.Tuple, ast.Set, ast.Constant)):
+            return True        # a display of names / constants is just built
+        if fi is not None and isinstance(a, ast.Name) and a.id not in _all_params(fi) and not assigned_value(fi.node, a.id):
+            v = fi.mod.repo.try_fold(a, fi.mod, None)
+            return isinstance(v, (tuple, list, str, frozenset))     # module-level constant sequence
+        if isinstance(a, ast.Call) and isinstance(a.func, ast.Name) and a.func.id in ('zip', 'enumerate') and not a.keywords and depth < 3:
+            return all(inert(x, depth + 1) for x in a.args)
+        return False
+    if n.func.id in _SAFE_CONSTRUCTORS + ('zip', 'enumerate'):
         # dict(a=x) / list() / tuple([..]) cannot raise; list(x) can (x not iterable)
-        return all(isinstance(a, (ast.Dict, ast.List, ast.Tuple, ast.Set, ast.Constant)) for a in n.args)
+        return all(inert(a) for a in n.args)
     if n.func.id in _SAFE_PREDICATES:
         return not any(isinstance(a, ast.Starred) for a in n.args)
     return False
@@ -1134,12 +1338,13 @@ def _risky_nodes(repo, fi, depth=0, seen=None):
         if id(n) in in_handlers:
             continue      # handler bodies are judged by _handler_completes
         if isinstance(n, ast.Call) and isinstance(n.func, ast.Attribute) and isinstance(n.func.value, ast.Name) and \
-                n.func.value.id in fresh and n.func.attr in _CONTAINER_METHODS and _fresh_is_container(fi, n.func.value.id):
-            continue      # info.update(k=v) / lines.append(x) on a container built right here
+                n.func.value.id in fresh and _fresh_is_container(fi, n.func.value.id) and \
+                (n.func.attr in _CONTAINER_METHODS or (n.func.attr == 'pop' and len(n.args) == 2)):
+            continue      # info.update(k=v) / lines.append(x) / kwargs.pop('k', default) on a container built right here
         if isinstance(n, ast.Subscript) and isinstance(n.ctx, ast.Load):
             out.append((n, 'subscript %s' % short(n, 50)))
         elif isinstance(n, ast.Call):
-            if _safe_builtin_call(n):
+            if _safe_builtin_call(n, fi):
                 continue
             if call_tail(n) == 'suppress' and isinstance(fi.mod.parents.get(n), ast.withitem):
                 continue      # with suppress(Exception): -- the guard itself
